@@ -12,6 +12,34 @@ use std::time::Instant;
 pub fn cases(ctx: &Ctx) -> Vec<WCase> {
     let mut out = vec![];
     let mut r = Rng::new(ctx.seed ^ 0xC18);
+    // never-drained sessions (players AND spectators) on a flapping link: hundreds of NetworkInterrupted / NetworkResumed
+    // events are raised and nobody fetches them
+    for i in 0..ctx.n(16, 300) {
+        let mut rr = r.fork(0x7000_0000 + i as u64);
+        let mut s = Scn::base(rr.next());
+        s.peers = rr.pick(&[vec![vec![0], vec![1]], vec![vec![0, 1]], vec![vec![0], vec![1], vec![2]]]);
+        s.mp = rr.pick(&[2usize, 8]);
+        s.frames = 3000;
+        s.desync = Some(rr.pick(&[1u32, 2]));
+        s.notify_ms = 100;
+        s.timeout_ms = 120_000;
+        s.keep_frames = Some(600);
+        let mut outs = vec![];
+        let mut t = 1200;
+        while t < 80_000 {
+            outs.push(Outage { from_ms: t, to_ms: t + 150, kinds: 0 });
+            t += 400;
+        }
+        s.link = Link { drop: 0.0, dup: 0.0, base_ms: 5, jitter_ms: 0, outages: outs, faults: vec![], stragglers: vec![] };
+        for _ in 0..s.peers.len() {
+            s.nodes.push(NodeCfg { drain: false, ..Default::default() });
+        }
+        let mut sp = SpecCfg::new(0);
+        sp.drain = false;
+        s.specs.push(sp);
+        s.limit_ms = 3000 * 17 * 3 + 20_000;
+        out.push(wcase(format!("flap-{i}"), s));
+    }
     let n = ctx.n(160, 3000);
     for i in 0..n {
         let mut rr = r.fork(i as u64);
@@ -203,7 +231,7 @@ pub fn check(ctx: &Ctx) -> i32 {
     let res = par_run(ctx, &cs, &|c: &WCase| c.id.clone(), &run_case);
     let meta = Meta {
         level: "exploration",
-        rule: "sessions of 3000 (quick), 5000 and 20000 (thorough) frames over all-local sessions ([[0]], [[0,1]]) and all P2P topologies, windows {0,2,8}, sparse on/off, detection interval {1,2}, clean and lossy links, events drained or never drained, spectators that are attentive / on a lossy link / silent from a random time on; a quarter of the two-peer sessions lose their remote early (death, or explicit disconnect_player) and play on alone. The size hook is sampled after every API call and the maxima compared with bounds that depend only on the configuration: event_queue <= 100; pending_local_inputs <= #locals; outgoing_local_inputs <= delay+1 (0 without remotes); local_checksum_history <= 33; per endpoint pending_output <= 128+window+delay+2, recv_inputs <= 131+2*window+delay, pending_checksums <= 33, send_queue == 0 and event_queue <= 4 after a call; a silent spectator must be disconnected once the host has advanced 128+window+delay+80 frames past the silence. Second, independent monitor: the counting allocator tracks the live bytes that were allocated inside ggrs calls (whoever frees them); sampled every 500 frames from frame 1000 on, a violation needs a least-squares slope > 16 bytes/frame AND the last quarter's mean exceeding the first quarter's by > 64 KiB. Non-trivial: >= 3000 frames and at least one buffer reached its bound (event queue 100, checksum history 32, pending checksums 32, spectator pending output 128, recv_inputs 2*window+1). Distinct: configuration + trace hash.".into(),
+        rule: "sessions of 3000 (quick), 5000 and 20000 (thorough) frames over all-local sessions ([[0]], [[0,1]]) and all P2P topologies, windows {0,2,8}, sparse on/off, detection interval {1,2}, clean and lossy links, events drained or never drained (incl. never-drained players and spectators on a flapping link that raises hundreds of interruption events), spectators that are attentive / on a lossy link / silent from a random time on; a quarter of the two-peer sessions lose their remote early (death, or explicit disconnect_player) and play on alone. The size hook is sampled after every API call and the maxima compared with bounds that depend only on the configuration: event_queue <= 100; pending_local_inputs <= #locals; outgoing_local_inputs <= delay+1 (0 without remotes); local_checksum_history <= 33; per endpoint pending_output <= 128+window+delay+2, recv_inputs <= 131+2*window+delay, pending_checksums <= 33, send_queue == 0 and event_queue <= 4 after a call; a silent spectator must be disconnected once the host has advanced 128+window+delay+80 frames past the silence. Second, independent monitor: the counting allocator tracks the live bytes that were allocated inside ggrs calls (whoever frees them); sampled every 500 frames from frame 1000 on, a violation needs a least-squares slope > 16 bytes/frame AND the last quarter's mean exceeding the first quarter's by > 64 KiB. Non-trivial: >= 3000 frames and at least one buffer reached its bound (event queue 100, checksum history 32, pending checksums 32, spectator pending output 128, recv_inputs 2*window+1). Distinct: configuration + trace hash.".into(),
         assumptions: std_assumptions(),
         floor_nontrivial: if ctx.quick() { 12 } else { 250 },
         exhaustive: None,
